@@ -403,6 +403,12 @@ def main():
             spat = "\n".join(" ...\n-s(%s)" % ("1" if i < k else "2") for i in range(k + 1))
             add("many-elisions", ("@@\n@@\n%s\n+t()\n" % spat).encode(),
                 {"a.go": ("package p\n\nfunc h() {\n%s\n}\n" % "\n".join("\ts(1)" for _ in range(n))).encode()})
+    # metavariables bound in the sections between the elisions and used AGAIN in the last section: the memo of the list search
+    # cannot tell two placements apart from what the remaining sections need to know, and every placement is tried (F55)
+    rv = "abcdefgh"
+    rpatch = ("@@\nvar %s expression\n@@\n-foo(..., %s, ..., %s)\n+bar()\n" % (", ".join(rv), ", ..., ".join(rv), ", ".join(rv))).encode()
+    for n in (12, 16, 30):
+        add("recurring-metavars", rpatch, {"a.go": ("package p\n\nvar _ = foo(%s)\n" % ", ".join("x%d" % i for i in range(n))).encode()})
     # description comments of every shape above a change that applies, in the modes that echo them
     DESCS = ["#", "# ", "#\t", "##", "# -----", "#=====", "# text\n#\n# more", "#\n#\n#", "# \xc3\xa9", "#" + "x" * 300, "# a\n\n# b", "#!", "# %s %d %%", "#\r"]
     for dsc in DESCS:
@@ -433,9 +439,10 @@ def main():
         if m:
             ck.tally("recovered_panics_reported_as_errors", "%s: %s" % (kind.split("+")[0], m.group(1)[:60]))
         if v:
+            fc = "list-search-exponential-recurring-metavariables" if (kind == "recurring-metavars" and (o["rc"] in (-999, 2) or o["secs"] > 10)) else None
             ck.violation("%s (%s patch)" % (v, kind), {"part": "command line", "kind": kind, "patch": case[0].decode("latin-1"),
                                                        "files": {n: b.decode("latin-1") for n, b in case[1].items()}, "flags": case[2],
-                                                       "exit": o["rc"], "stderr": o["stderr"], "secs": round(o["secs"], 2)})
+                                                       "exit": o["rc"], "stderr": o["stderr"], "secs": round(o["secs"], 2)}, finding_class=fc)
     ck.notes["slowest_run_s"] = round(slowest, 2)
 
     # ------------------------------------------------------------------ (C) library API: ill-typed patches, model vs patch.File.Apply
